@@ -1,7 +1,7 @@
 (* C05 — Ring buffer slots: no overwrite before consumption, no unordered access. *)
 From Coq Require Import Arith Lia.
 From DC Require Import Disruptor.Pipeline.
-From DC Require Disruptor.HB Disruptor.MultiPub Disruptor.MultiPubHB.
+From DC Require Disruptor.HB Disruptor.MultiPub Disruptor.MultiPubHB Disruptor.Handlers Disruptor.MultiPipe.
 
 (* the producer writes sequence q into slot q mod N only when EVERY handler of EVERY stage has returned from
    the sequence q - N previously stored there — for every ring size, topology, batch size and interleaving *)
@@ -81,6 +81,16 @@ Theorem C05_multi_producer_fills_race_free : forall N, 1 <= N -> forall C s t lo
   (forall q, MultiPubHB.fl s q = true -> q mod N = MultiPubHB.pf s t mod N -> MultiPubHB.kf (MultiPubHB.kp s t) q = true).
 Proof. exact MultiPubHB.producer_no_race. Qed.
 
+(* multi-producer pipeline of ANY topology (Disruptor/MultiPipe.v): while a producer fills the slots of its claim, EVERY
+   handler of EVERY stage has returned from the previous occupant q - N of each of them *)
+Theorem C05_multi_pipeline_no_overwrite_any_stage : forall N, 1 <= N -> forall H stage last
+  (stage_le : forall h, h < H -> stage h <= last)
+  (stage_nonempty : forall k, k <= last -> exists h, h < H /\ stage h = k) x t lo hi,
+  MultiPipe.mreachable N H stage last x -> MultiPub.tp (MultiPipe.ms x) t = MultiPub.TClaimed lo hi ->
+  forall q h, lo <= q <= hi -> h < H -> q < Handlers.done (MultiPipe.hs x) h + N.
+Proof. exact MultiPipe.mp_no_overwrite_any_stage. Qed.
+
+Print Assumptions C05_multi_pipeline_no_overwrite_any_stage.
 Print Assumptions C05_no_overwrite_before_consumption.
 Print Assumptions C05_multi_consumer_accesses_race_free.
 Print Assumptions C05_multi_producer_fills_race_free.
